@@ -495,6 +495,15 @@ def gen_float(tier, rng):
                     yield Case('trace api=%s et=i32 shape=%s offset=%d axis1=%d axis2=%d data=%s' % (api, fmt(s), off, a1, a2, fmt(data)),
                                'h_c08f4', model=True, dom=True, cmp=close_cmp(1e-12, 1e-12), nontrivial=False,
                                oracle=fans(np.trace(a, offset=off, axis1=a1, axis2=a2)), tags=['trace', 'empty-diagonal', srank])
+        # the DEFAULT axis pair: trace(a) and trace(a, offset) take the FIRST two axes (NumPy), whatever the rank (seeded C08-3
+        # defaulted to the last two: invisible on matrices)
+        if nd >= 2:
+            for form, offs in (('d0', [0]), ('d1', [o for o in (-1, 0, 1) if -s[0] < o < s[1]])):
+                for off in offs:
+                    for api in ('view', 'array'):
+                        base = 'trace api=%s et=i32 shape=%s offset=%d axis1=0 axis2=1 data=%s' % (api, fmt(s), off, fmt(data))
+                        yield Case(base + ' form=' + form, 'h_c08f4', mreq=base, model=True, dom=True, cmp=close_cmp(1e-12, 1e-12), nontrivial=nd > 2,
+                                   oracle=fans(np.trace(a, offset=off)), tags=['trace', 'default-axes', srank, 'form=' + form])
     # float fold order: the sum of (1e16, 1, -1e16, …) depends on the order; the reference is the sequential left fold in IEEE double
     vals = [1e16, 1.0, -1e16, 3.0, 1e16, -1e16, 0.5]
     nord = 60 if tier == 'quick' else 400
